@@ -417,6 +417,7 @@ func jobs(quick bool) []job {
 	if quick {
 		add("S1", 5, 0, 1, 2, 3)
 		add("S8", 5, 0, 1, 2)
+		add("S9", 8, 0, 1, 2)
 		add("S2", 15, 0, 1, 2)
 		add("S4", 10, 0, 1)
 		add("S3a", 8, 0, 1)
@@ -429,6 +430,7 @@ func jobs(quick bool) []job {
 	}
 	add("S1", 10, 0, 1, 2, 3)
 	add("S8", 10, 0, 1, 2, 3)
+	add("S9", 30, 0, 1, 2, 3)
 	add("S2", 60, 0, 1, 2, 3)
 	add("S4", 90, 0, 1, 2, 3)
 	add("S3a", 120, 0, 1, 2)
@@ -463,10 +465,17 @@ func c32(r *engine.Run) {
 	}
 	var plan []tierPlan
 	for _, x := range js {
-		if len(plan) == 0 || plan[len(plan)-1].harness != x.harness {
-			plan = append(plan, tierPlan{harness: x.harness})
+		k := -1
+		for i := range plan {
+			if plan[i].harness == x.harness {
+				k = i
+			}
 		}
-		plan[len(plan)-1].bounds = append(plan[len(plan)-1].bounds, x.bound)
+		if k < 0 {
+			plan = append(plan, tierPlan{harness: x.harness})
+			k = len(plan) - 1
+		}
+		plan[k].bounds = append(plan[k].bounds, x.bound)
 	}
 	results := runPlan(r, js)
 	report(r, plan, results)
